@@ -14,6 +14,10 @@ CLAIMED = {
             "executed-equals-reported clauses (contractor memo key, sliced-leaf invalidation)"),
     "C04": ("4 C04", "attribute-completeness and aliasing analysis of set_state_from/copy, who-may-write and "
             "sign-symmetry of running totals, CFG dominance of contract_stats before deltas"),
+    "C05": ("4 C05", "pairing/typestate of the path simulator's single-use ids (every recorded step pops its ids and adds one "
+            "node; who-may-write the id counter and node table), CFG must-pass-through of optimize_remaining_by_size "
+            "before every hand-out of a path, path-sensitive guard of flops-limited runs, completion branches of the "
+            "tree builders on every path, guard of the one-community partition result"),
     "C06": ("4 C06", "write-discipline of the sliced-index table (sorted rebuild only, SliceInfo field order) and pairing "
             "of sliced_inputs updates, chunk-key/slice-number agreement, exponent-aware combination sites"),
     "C07": ("4 C07", "CFG guard dominance of the forbidden-index test, structural form of the target filter, sibling "
@@ -51,6 +55,7 @@ LEVEL_TEXT = {
     "C02": "for every function that can restructure or slice a tree (all sites, hence all histories through them) the cached per-node recipes are invalidated as the computed dependency graph requires; value equality itself is numerical and not decided",
     "C03": "the definitions of flops/size and the slice multiplicity of every reported total are read off the getters by def-use dependence (must-dependence on every path); the arithmetic on runtime sizes is not decided",
     "C04": "every attribute of a tree is copied safely, running totals are adjusted symmetrically by their owners only, and no slice-dependent figure is first computed after the sliced set changed — for all sites; integer arithmetic is not decided",
+    "C05": "protocol facts only: ids of the path simulator are single-use and consumed by removal, every finder built on it joins leftover parts before handing a path out and never hands out a flops-limited run, from_path and the partition builders join what is left on every path; which contraction is found and that partitioners label every node is NOT decided",
     "C06": "every writer of the sliced-index table keeps output indices first and the slice count is multiplied/divided by the recorded size; stride arithmetic is runtime and not decided",
     "C07": "forbidden indices are excluded on every path, whatever search() returns passes the unscaled target filter, the cost model slices only indices it knows against its own baseline; equality of predicted and real costs is not decided",
     "C08": "the returned trial is the arg-min of the recorded scores on every schedule (each reported trial is compared, guarded update, once-per-trial bookkeeping) and recorded costs are refreshed after every in-place post-processing; cost values are not decided",
@@ -69,8 +74,6 @@ LEVEL_TEXT = {
 NA = {
     "C01": "numerical equality with einsum for all networks/trees/options is arithmetic over runtime index strings and "
            "array data; the only structural clause (root axis order sourced from the declared output) is decided under C02-ROOT",
-    "C05": "completeness of every pathfinder's result depends on data-dependent partition/greedy outcomes; no structural "
-           "necessary condition beyond 'built through an auto-completing constructor', which no realistic break violates",
     "C11": "value semantics of a reshape/transpose/matmul plan over runtime shapes; the only structural clause (purity of "
            "the lru_cached planners) is decided under C13-MEMO",
     "C12": "conformance with numpy.einsum's grammar and broadcasting over all call forms is a specification question over "
